@@ -28,6 +28,81 @@ CHECKS = {
         "model",
         "DESIGN.md §3 C07",
     ),
+    "C01": (
+        "model_checking",
+        "Three exhaustive blocks: the complete (force field x residue key x "
+        "atom) lookup table of all six built-in force fields is diffed "
+        "against an independent DAT/.names resolver; every user .names "
+        "'program' of <=3 (thorough <=4) sections from a 9-template grammar "
+        "is loaded through the real Forcefield class and its whole table "
+        "diffed; every tripeptide (33 input residue names x 3 chain "
+        "positions), strand and water case x 6 force fields x 3 option sets "
+        "is run end to end and every atom of the returned model must be "
+        "written with exactly the resolver's parameters for the harness-"
+        "inferred state, or be omitted and reported.",
+        "Trusts mc/refs/ff_ref.py as the meaning of the documented .names "
+        "semantics and mc/corpus.state_ref (state inferred from written "
+        "atoms + what the harness built).  Relative to the parameter files.",
+        "exhaustive table enumeration + bounded program enumeration + "
+        "stateless exploration of the pipeline against a reference model",
+        "DESIGN.md §3 C01",
+    ),
+    "C02": (
+        "model_checking",
+        "Complete grid (33 input names x 3 positions x 6 force fields x 2 "
+        "option sets, PARSE x neutral-terminus subsets), complete chain-"
+        "layout alphabet (14 layouts x 20 residue types at the chain ends), "
+        "strands of length 1-3 for every nucleotide and cyclic closures on a "
+        "distance lattice around 1.35 A; oracle = chemistry table of formal "
+        "charges evaluated on the PQR charge column, terminus markers per "
+        "built chain end.",
+        "Formal-charge table and state inference are the harness's; aborting "
+        "runs are counted, not judged (C12).",
+        "stateless bounded-exhaustive exploration of the pipeline against a "
+        "reference model",
+        "DESIGN.md §3 C02",
+    ),
+    "C03": (
+        "model_checking",
+        "Corpus S3 (host tripeptide x position x option set x environment "
+        "with <=2 deviations: clash probes, omitted/extra atoms, water "
+        "lattice, partner poses) + strands through the real pipeline with "
+        "monitors on every Optimize method; the observed automaton of "
+        "temporary-atom bookkeeping is reported as states/transitions; "
+        "invariants: input heavy atoms conserved unless a deletion warning "
+        "names them, model = PQR (+) unassigned, exact topology atom sets, no "
+        "temporaries.",
+        "Expected atom sets come from the harness's independent reading of "
+        "AA.xml/NA.xml/PATCHES.xml; environments are lattice poses.",
+        "stateless bounded-exhaustive exploration (deviation-bounded "
+        "environments) with an observed-state-machine monitor",
+        "DESIGN.md §3 C03",
+    ),
+    "C04": (
+        "model_checking",
+        "Corpus S3 through the real pipeline with a monitor around the "
+        "torsion-setting routine: exact coordinate preservation of backbone/"
+        "caps (and of everything under --clean/--assign-only/--nodebump "
+        "--noopt), unchanged bond lengths/angles among input heavy atoms, "
+        "and every torsion call audited against the independently parsed "
+        "bond graph (moved set = atoms beyond the bond, pure rotation).",
+        "Lattice geometry; bond graph = union of residue template and "
+        "patches parsed by the harness.",
+        "stateless bounded-exhaustive exploration with call-level monitors",
+        "DESIGN.md §3 C04",
+    ),
+    "C05": (
+        "exploration",
+        "Corpus S3 + strands with snapshots at every stage boundary (repair, "
+        "both debump passes, hydrogen addition, optimisation, clean-up, "
+        "final): every non-input atom within 0.06 A / 8 degrees of its "
+        "template bond length / angles and not coincident with another atom.",
+        "Continuous geometry on a lattice (hence 'exploration'); tolerances "
+        "fixed a priori.",
+        "bounded-exhaustive lattice exploration of the pipeline with stage "
+        "monitors",
+        "DESIGN.md §3 C05",
+    ),
 }
 
 NOT_YET = {}
